@@ -1,5 +1,8 @@
 use std::io;
 use std::path::{Path, PathBuf};
+#[cfg(resolved_verif)]
+use simseam::fs::{read_dir, read_to_string};
+#[cfg(not(resolved_verif))]
 use tokio::fs::{read_dir, read_to_string};
 
 use dns_types::hosts::types::Hosts;
